@@ -105,6 +105,16 @@ def run(ctx):
     s = V.harness(ctx, ["rt-run", "-in", cells, "-out", obs, "-seed", ctx.seed, "-sample", sample, "-reps", reps, "-workers", V.NCPU])
     ctx.say("cells: %d emitted, %d executed (%d distinct) on %d worlds x 3 documents" % (n, s["executed"], s["distinct"], s["extra"]["workers"]))
     tables, rest, total = validate(ctx, obs, "rt")
+    # cross-use between two spellings of a Host that route to different upstreams (RoutingXTrace.tla)
+    xobs = os.path.join(ctx.scratch, "xuse.ndjson")
+    xs = V.harness(ctx, ["rt-xuse", "-out", xobs, "-seed", ctx.seed, "-n", 60 if ctx.tier == "quick" else 1200])
+    xv, _, _ = V.leg_v(ctx, "RoutingXTrace", "RoutingXTrace.cfg", xobs, strip=("conc",), label="V-xuse")
+    for lineno, rules in xv:
+        rec = V.read_line(xobs, lineno)
+        for rule in rules:
+            V.report(ctx, rule, rec, "a session bound to Host %s (%s) presented on Host %s was forwarded to backend %s (status %d); the two spellings route to different upstreams"
+                     % (rec["forhost"], rec["minted"], rec["athost"], rec["reached"], rec["status"]), {"kind": "xuse", "record": rec})
+    ctx.cov["cross_spelling_probes"] = xs["executed"]
     # vacuity: antecedents of every rule, counted on what was executed
     ante = {"unknown_host": 0, "known_host": 0, "static_inside_rewrite": 0, "several_rewrites_match": 0, "served": 0, "policy_refused": 0,
             "other_provider_session": 0, "cross_use_session": 0, "signin_redirect": 0, "login_minted": 0, "login_cross_use": 0,
